@@ -15,31 +15,38 @@ open Unifex.Generated.BulkLoop
     Everything the theorems need to know about the generated text is in these lemmas; a harmless
     rewrite of the C++ arithmetic regenerates different text and (only) these have to re-prove. -/
 
+/-- unfold the generated pieces, turn Bool equalities into iff, and leave linear arithmetic (with `min`,
+    `if`, the chunk-size constant as an atom) to omega -/
+macro "bulk_nf" : tactic => `(tactic|
+  (simp only [outer_init, outer_cond, outer_step, chunk_end,
+      inner_u_init, inner_u_cond, inner_u_step, inner_u_arg, inner_s_init, inner_s_cond, inner_s_step, inner_s_arg,
+      plain_u_init, plain_u_cond, plain_u_step, plain_u_arg, plain_s_init, plain_s_cond, plain_s_step, plain_s_arg,
+      if_true, if_false, Bool.false_eq_true, reduceCtorEq]
+   <;> (repeat' split) <;> first | omega | (refine decide_eq_decide.mpr ?_; omega)))
+
 theorem chunk_pos : 0 < bulk_cancellation_chunk_size := by decide
 
-theorem outer_init_nf (n : Nat) : outer_init n = 0 := by simp [outer_init]
-theorem outer_cond_nf (n cs : Nat) : outer_cond n cs = decide (cs < n) := by simp [outer_cond]
-theorem outer_step_nf (n cs : Nat) : outer_step n cs = cs + bulk_cancellation_chunk_size := by
-  simp [outer_step]
-theorem chunk_end_nf (n cs : Nat) : chunk_end n cs = min (cs + bulk_cancellation_chunk_size) n := by
-  simp [chunk_end]
+theorem outer_init_nf (n : Nat) : outer_init n = 0 := by bulk_nf
+theorem outer_cond_nf (n cs : Nat) : outer_cond n cs = decide (cs < n) := by bulk_nf
+theorem outer_step_nf (n cs : Nat) : outer_step n cs = cs + bulk_cancellation_chunk_size := by bulk_nf
+theorem chunk_end_nf (n cs : Nat) : chunk_end n cs = min (cs + bulk_cancellation_chunk_size) n := by bulk_nf
 theorem innerInit_nf (u : Bool) (n cs : Nat) : innerInit u n cs = cs := by
-  cases u <;> simp [innerInit, inner_u_init, inner_s_init]
+  cases u <;> unfold innerInit <;> bulk_nf
 theorem innerCond_nf (u : Bool) (n cs i : Nat) :
     innerCond u n cs i = decide (i < min (cs + bulk_cancellation_chunk_size) n) := by
-  cases u <;> simp [innerCond, inner_u_cond, inner_s_cond, chunk_end_nf]
+  cases u <;> unfold innerCond <;> bulk_nf
 theorem innerStep_nf (u : Bool) (n cs i : Nat) : innerStep u n cs i = i + 1 := by
-  cases u <;> simp [innerStep, inner_u_step, inner_s_step]
+  cases u <;> unfold innerStep <;> bulk_nf
 theorem innerArg_nf (u : Bool) (n cs i : Nat) : innerArg u n cs i = i := by
-  cases u <;> simp [innerArg, inner_u_arg, inner_s_arg]
+  cases u <;> unfold innerArg <;> bulk_nf
 theorem plainInit_nf (u : Bool) (n : Nat) : plainInit u n = 0 := by
-  cases u <;> simp [plainInit, plain_u_init, plain_s_init]
+  cases u <;> unfold plainInit <;> bulk_nf
 theorem plainCond_nf (u : Bool) (n i : Nat) : plainCond u n i = decide (i < n) := by
-  cases u <;> simp [plainCond, plain_u_cond, plain_s_cond]
+  cases u <;> unfold plainCond <;> bulk_nf
 theorem plainStep_nf (u : Bool) (n i : Nat) : plainStep u n i = i + 1 := by
-  cases u <;> simp [plainStep, plain_u_step, plain_s_step]
+  cases u <;> unfold plainStep <;> bulk_nf
 theorem plainArg_nf (u : Bool) (n i : Nat) : plainArg u n i = i := by
-  cases u <;> simp [plainArg, plain_u_arg, plain_s_arg]
+  cases u <;> unfold plainArg <;> bulk_nf
 
 /-! ### the loops in closed form -/
 
